@@ -776,3 +776,44 @@ Proof.
   split; [apply (witness_void_explicit RS 0%R 1%R)|].
   repeat split; reflexivity.
 Qed.
+
+(* ------------------------------------------------- LIKE_RE on split's text *)
+Lemma digit_not_ws c : is_digit c = true -> is_ws c = false.
+Proof.
+  unfold is_digit, is_ws. intros H. apply andb_true_iff in H. destruct H as [H1 H2].
+  apply N.leb_le in H1. apply N.leb_le in H2.
+  apply orb_false_iff. split.
+  - apply N.eqb_neq. lia.
+  - apply andb_false_iff. right. apply N.leb_gt. lia.
+Qed.
+
+Lemma span_digits_app ds rest :
+  all_digits ds = true -> (match rest with String c _ => is_digit c = false | EmptyString => True end) ->
+  span_digits (ds ++ rest) = (ds, rest).
+Proof.
+  induction ds as [|c r IH]; intros Hd Hr.
+  - cbn. destruct rest as [|c r]; [reflexivity|]. cbn. rewrite Hr. reflexivity.
+  - cbn in Hd. apply andb_true_iff in Hd. destruct Hd as [Hc Hd].
+    cbn. rewrite Hc, (IH Hd Hr). reflexivity.
+Qed.
+
+(* LIKE_RE recognises the geometry text that split gives for "N LIKE n BUT ...",
+   whatever the digits of n *)
+Lemma like_re_recognises (ds : string) :
+  all_digits ds = true -> ds <> EmptyString ->
+  search_like (" like " ++ ds ++ " but") = Some (Z.of_N (parse_digits ds 0%N)).
+Proof.
+  intros Hd Hn. destruct ds as [|c r]; [congruence|].
+  assert (Hc : is_digit c = true) by (cbn in Hd; apply andb_true_iff in Hd; tauto).
+  cbn [append search_like].
+  change (match_like_at (String " " (String "l" (String "i" (String "k" (String "e" (String " " (String c (r ++ " but")))))))))
+    with (@None Z).
+  cbn [search_like]. unfold match_like_at at 1.
+  change (prefix "like" (String "l" (String "i" (String "k" (String "e" (String " " (String c (r ++ " but")))))))) with true.
+  cbn [sdrop starts_ws]. change (is_ws " ") with true. cbn [skip_ws].
+  change (is_ws " ") with true. cbn iota.
+  rewrite (digit_not_ws c Hc).
+  change (String c (r ++ " but")) with (String c r ++ " but").
+  rewrite (span_digits_app (String c r) " but" Hd eq_refl).
+  reflexivity.
+Qed.
